@@ -159,13 +159,17 @@ variable (hR : ∀ er, R er → ∀ resp qr next, parseOne er resp = .ok (qr, ne
 def CallsFrom (calls : List Call) : Prop := ∀ cl ∈ calls, ∀ rq ∈ cl.batch, FromReq c rv R cl.url rq
 
 include hR in
-theorem execDepth_inv (ers : List ExecReq) (st : ExecState) (st' : ExecState) (next : List ExecReq)
-    (hers : ∀ er ∈ ers, R er) (hst : CallsFrom c rv R st.calls)
+/-- one depth preserves: every call recorded satisfies `K` (any property that holds of a call whose
+    requests all come from execution requests satisfying `R`), every pending request satisfies `R` -/
+theorem execDepth_inv' (K : Call → Prop)
+    (hK : ∀ url batch, (∀ rq ∈ batch, FromReq c rv R url rq) → K ⟨url, batch⟩)
+    (ers : List ExecReq) (st : ExecState) (st' : ExecState) (next : List ExecReq)
+    (hers : ∀ er ∈ ers, R er) (hst : ∀ cl ∈ st.calls, K cl)
     (h : execDepth c cfg rv down ers st = .ok (st', next)) :
-    CallsFrom c rv R st'.calls ∧ ∀ er ∈ next, R er := by
+    (∀ cl ∈ st'.calls, K cl) ∧ ∀ er ∈ next, R er := by
   unfold execDepth at h
   have hgroups := partitionByURL_inv R ers hers
-  have := foldlM_inv _ (fun (acc : ExecState × List ExecReq) => CallsFrom c rv R acc.1.calls ∧ ∀ er ∈ acc.2, R er)
+  have := foldlM_inv _ (fun (acc : ExecState × List ExecReq) => (∀ cl ∈ acc.1.calls, K cl) ∧ ∀ er ∈ acc.2, R er)
     (partitionByURL ers) ?_ (st, []) ⟨hst, by simp⟩ (st', next) h
   · exact this
   intro acc g hg hacc acc' hstep
@@ -188,14 +192,14 @@ theorem execDepth_inv (ers : List ExecReq) (st : ExecState) (st' : ExecState) (n
           intro er her vars hv
           obtain ⟨hRer, hurl⟩ := hgroup er her
           exact ⟨er, vars, hRer, hurl, hv, rfl⟩
-        have hcalls : CallsFrom c rv R (acc.1.calls ++ [⟨url, batch⟩]) := by
-          intro cl hcl rq hrq
+        have hcalls : ∀ cl ∈ acc.1.calls ++ [⟨url, batch⟩], K cl := by
+          intro cl hcl
           simp only [List.mem_append, List.mem_singleton] at hcl
           rcases hcl with hcl | rfl
-          · exact hacc.1 cl hcl rq hrq
-          · exact hbatch rq hrq
+          · exact hacc.1 cl hcl
+          · exact hK url batch hbatch
         -- the answers are stitched in; follow-ups are collected
-        refine foldlM_inv _ (fun (a : ExecState × List ExecReq) => CallsFrom c rv R a.1.calls ∧ ∀ er ∈ a.2, R er)
+        refine foldlM_inv _ (fun (a : ExecState × List ExecReq) => (∀ cl ∈ a.1.calls, K cl) ∧ ∀ er ∈ a.2, R er)
           (group.zip src) ?_ (⟨acc.1.result, acc.1.calls ++ [⟨url, batch⟩]⟩, acc.2) ⟨hcalls, hacc.2⟩ acc' hstep
         intro a p hp ha a' hpstep
         obtain ⟨er, s⟩ := p
@@ -216,6 +220,14 @@ theorem execDepth_inv (ers : List ExecReq) (st : ExecState) (st' : ExecState) (n
             rcases he with he | he
             · exact ha.2 e he
             · exact hR er (hgroup er her).1 _ qr nx hpo e he
+
+include hR in
+theorem execDepth_inv (ers : List ExecReq) (st : ExecState) (st' : ExecState) (next : List ExecReq)
+    (hers : ∀ er ∈ ers, R er) (hst : CallsFrom c rv R st.calls)
+    (h : execDepth c cfg rv down ers st = .ok (st', next)) :
+    CallsFrom c rv R st'.calls ∧ ∀ er ∈ next, R er :=
+  execDepth_inv' c cfg rv down R hR (fun cl => ∀ rq ∈ cl.batch, FromReq c rv R cl.url rq)
+    (fun _ _ hb => hb) ers st st' next hers hst h
 
 include hR in
 theorem execLoop_inv : ∀ (fuel : Nat) (ers : List ExecReq) (st st' : ExecState),
@@ -284,6 +296,87 @@ theorem execute_calls_from_steps (P : Step → Prop) (hP : ∀ s, P s → ∀ t 
     (fun er her resp qr next hpo e he => hP er.step her e.step (parseOne_next er resp qr next hpo e he))
     steps initial st hsteps h
 
+/-! ### the downstream is consulted on requests of the plan only -/
+
+theorem foldlM_congr_mem {α β ε : Type} (f g : β → α → Except ε β) :
+    ∀ (l : List α), (∀ a ∈ l, ∀ b, f b a = g b a) → ∀ b, l.foldlM f b = l.foldlM g b
+  | [], _, b => rfl
+  | a :: l, h, b => by
+    simp only [List.foldlM_cons, bind, Except.bind]
+    rw [h a (by simp) b]
+    cases g b a with
+    | error e => rfl
+    | ok b1 => exact foldlM_congr_mem f g l (fun x hx => h x (by simp [hx])) b1
+
+section
+variable (R : ExecReq → Prop)
+variable (hR : ∀ er, R er → ∀ resp qr next, parseOne er resp = .ok (qr, next) → ∀ e ∈ next, R e)
+variable (down' : Downstream)
+variable (hagree : ∀ url batch, (∀ rq ∈ batch, FromReq c rv R url rq) → down url batch = down' url batch)
+
+include hagree in
+theorem execDepth_congr (ers : List ExecReq) (st : ExecState) (hers : ∀ er ∈ ers, R er) :
+    execDepth c cfg rv down ers st = execDepth c cfg rv down' ers st := by
+  unfold execDepth
+  have hgroups := partitionByURL_inv R ers hers
+  apply foldlM_congr_mem
+  intro g hg acc
+  obtain ⟨url, group⟩ := g
+  have hgroup := hgroups (url, group) hg
+  simp only [bind, Except.bind]
+  cases hbb : buildBatch c cfg rv group with
+  | error e => rfl
+  | ok bb =>
+    obtain ⟨batch, src⟩ := bb
+    have hbatch : ∀ rq ∈ batch, FromReq c rv R url rq := by
+      apply buildBatch_inv c cfg rv (FromReq c rv R url) group (batch, src) ?_ hbb
+      intro er her vars hv
+      obtain ⟨hRer, hurl⟩ := hgroup er her
+      exact ⟨er, vars, hRer, hurl, hv, rfl⟩
+    simp only [hagree url batch hbatch]
+
+include hR hagree in
+theorem execLoop_congr : ∀ (fuel : Nat) (ers : List ExecReq) (st : ExecState), (∀ er ∈ ers, R er) →
+    execLoop c cfg rv down fuel ers st = execLoop c cfg rv down' fuel ers st
+  | 0, _, _, _ => by rw [execLoop, execLoop]
+  | fuel + 1, ers, st, hers => by
+    rw [execLoop, execLoop]
+    split
+    · rfl
+    · simp only [bind, Except.bind]
+      rw [← execDepth_congr c cfg rv down R down' hagree ers st hers]
+      cases hd : execDepth c cfg rv down ers st with
+      | error e => rfl
+      | ok r =>
+        obtain ⟨st1, next⟩ := r
+        -- the follow-up requests are reachable again
+        have hnext : ∀ er ∈ next, R er :=
+          (execDepth_inv' c cfg rv down R hR (fun _ => True) (fun _ _ _ => trivial) ers st st1 next hers
+            (fun _ _ => trivial) hd).2
+        exact execLoop_congr fuel next st1 hnext
+
+include hR hagree in
+/-- **Two downstreams that agree on the batches made of requests of the plan give the same
+    execution** — the executor consults the downstream on nothing else, also in runs that end in an
+    error. -/
+theorem execute_congr (steps : List Step) (initial : List (String × J)) (hsteps : ∀ s ∈ steps, R ⟨s, s.ip⟩) :
+    execute c cfg rv down steps initial = execute c cfg rv down' steps initial := by
+  unfold execute
+  apply execLoop_congr c cfg rv down R hR down' hagree
+  intro er her
+  obtain ⟨s, hs, rfl⟩ := List.mem_map.mp her
+  exact hsteps s hs
+
+include hR hagree in
+theorem gatewayCore_congr (op : Op) (so : Scrub → Scrub) (steps : List Step) (sf : Scrub)
+    (hplan : plan c op = .ok (steps, sf)) (hsteps : ∀ s ∈ steps, R ⟨s, s.ip⟩) :
+    gatewayCore c cfg op rv down so = gatewayCore c cfg op rv down' so := by
+  unfold gatewayCore gatewayCoreWith
+  simp only [hplan]
+  rw [execute_congr c cfg rv down R hR down' hagree steps [] hsteps]
+
+end
+
 /-- the steps of a plan: its root steps and, recursively, their child steps -/
 inductive InPlan (steps : List Step) : Step → Prop
   | root {s : Step} : s ∈ steps → InPlan steps s
@@ -303,6 +396,27 @@ theorem gateway_requests_are_plan_steps (op : Op) (so : Scrub → Scrub) (steps 
   obtain ⟨er, vars, hin, hurl, hv, hrq'⟩ := gatewayCore_calls_from_reqs c cfg _ down (fun er => InPlan steps er.step)
     (fun er her resp qr next hpo e he => InPlan.child her (parseOne_next er resp qr next hpo e he))
     op so steps sf hplan (fun s hs => InPlan.root hs) res h cl hcl rq hrq
+  exact ⟨er.step, er.ip, vars, hin, hurl, hv, hrq'⟩
+
+/-- **The downstream is consulted on batches of requests of plan steps only**: two downstreams
+    that agree on every batch all of whose requests are formatted forms of steps of the plan (sent
+    to those steps' service) give the same outcome — data, errors, calls, faults. -/
+theorem gateway_congr_on_plan (down' : Downstream) (op : Op) (so : Scrub → Scrub) (steps : List Step) (sf : Scrub)
+    (hplan : plan c op = .ok (steps, sf))
+    (hagree : ∀ url batch,
+      (∀ rq ∈ batch, ∃ s ip vars, InPlan steps s ∧ s.url = url ∧
+        getVariables (withDeclaredDefaults Gen.Vars.declaredDefaultsApplied op rv) c ⟨s, ip⟩ = .ok vars ∧
+        rq = requestOf c s vars) →
+      down url batch = down' url batch) :
+    gateway c cfg op rv down so = gateway c cfg op rv down' so := by
+  unfold gateway
+  refine gatewayCore_congr c cfg _ down (fun er => InPlan steps er.step)
+    (fun er her resp qr next hpo e he => InPlan.child her (parseOne_next er resp qr next hpo e he))
+    down' ?_ op so steps sf hplan (fun s hs => InPlan.root hs)
+  intro url batch hb
+  apply hagree url batch
+  intro rq hrq
+  obtain ⟨er, vars, hin, hurl, hv, hrq'⟩ := hb rq hrq
   exact ⟨er.step, er.ip, vars, hin, hurl, hv, hrq'⟩
 
 end
